@@ -24,7 +24,7 @@ PROP = "C04"
 LEVEL = "exploration"
 ENGINE = "EP"
 N = {"quick": 4000, "thorough": 160000}
-TIME = {"quick": 45, "thorough": 480}
+TIME = {"quick": 300, "thorough": 480}
 RULE = ("Random grids (2-8 points, gaps 60 s..7 d, given shuffled with a duplicate), events of 4 classes with unique ids placed at "
         "g-1us, g, g+1us, g+L-1us, g+L, g+L+1us, random inside the gap, before the first and after the last grid point, shuffled "
         "insertion; latency L in {0,1,10,30,59.5}; fold windows, warm-up horizons, markov reset, configured episode length; three "
